@@ -37,6 +37,7 @@ type Op struct {
 	Jail    *jailOp    `json:"jail,omitempty"`
 	Publish *publishOp `json:"publish,omitempty"`
 	Light   *lightOp   `json:"light,omitempty"` // lightnode: lightnode_test.go
+	Evidence *evidenceOp `json:"evidence,omitempty"` // evidence: evidence_test.go
 }
 
 // id: the stable identity of the operation's shape (used in violation ids).
@@ -197,6 +198,8 @@ func (w *world) apply(op Op) (string, string) {
 		})
 	case "lightnode":
 		return w.ln.apply(op.Light)
+	case "evidence":
+		return applyEvidence(w.pctx, op.Evidence)
 	default:
 		return w.x.apply(op)
 	}
